@@ -77,10 +77,9 @@ TraceInit == /\ tid \in 1..Len(Traces)
 \* first event: the observation of the freshly constructed start object
 ObserveStart ==
   /\ ~dead /\ l = 1 /\ T.ev[1].a = "Init"
-  /\ LET ev == T.ev[1]
-         f == IF ev.exc # "" THEN "raised"
-              ELSE FirstFail(AbstractChecks(ev.obs, s, T.cfg), 1)
-     IN /\ (IF f = "" THEN TRUE ELSE Report("Init." \o f))
+  /\ LET ev == T.ev[1] IN
+     \E f \in {IF ev.exc # "" THEN "raised" ELSE FirstFail(AbstractChecks(ev.obs, s, T.cfg), 1)} :  \* singleton: evaluated once
+        /\ (IF f = "" THEN TRUE ELSE Report("Init." \o f))
         /\ dead' = (f # "")
         /\ seen' = IF f = "" THEN [seen EXCEPT ![s.form] = ev.obs.pos] ELSE seen
   /\ l' = 2 /\ UNCHANGED <<s, start, h, tid>>
@@ -91,10 +90,9 @@ Call ==
   /\ LET ev  == T.ev[l]
          lab == <<ev.a, ev.n>>
      IN /\ Enabled(s, lab)                      \* the driver only calls methods the object has
-        /\ LET e == Post(s, lab)
-               f == IF ev.exc # "" THEN "raised"
-                    ELSE FirstFail(StepChecks(ev, s, e, T.cfg), 1)
-           IN /\ (IF f = "" THEN TRUE ELSE Report(ev.a \o "." \o f))
+        /\ \E e \in {Post(s, lab)} :
+           \E f \in {IF ev.exc # "" THEN "raised" ELSE FirstFail(StepChecks(ev, s, e, T.cfg), 1)} :
+              /\ (IF f = "" THEN TRUE ELSE Report(ev.a \o "." \o f))
               /\ dead' = (f # "")
               /\ s' = e
               /\ h' = Append(h, lab)
